@@ -35,6 +35,8 @@ type T struct {
 	K    Kind
 	B    bool
 	I    int64
+	U    uint64 // KInt with Uns: the value (always above math.MaxInt64: a uint/uint64 that no int64 holds)
+	Uns  bool
 	F    float64 // finite; its exact decimal expansion is short (see fltText)
 	S    string  // KStr, KBig
 	Kids []*T
@@ -53,8 +55,10 @@ func (t *T) clone() *T {
 
 func (t *T) isContainer() bool { return t.K == KArr || t.K == KObj }
 
+// hasBig: the tree holds a value that generic data cannot (json.Number is outside the generic
+// model, gen.Int is an int64).
 func (t *T) hasBig() bool {
-	if t.K == KBig {
+	if t.K == KBig || (t.K == KInt && t.Uns) {
 		return true
 	}
 	for _, k := range t.Kids {
@@ -63,6 +67,21 @@ func (t *T) hasBig() bool {
 		}
 	}
 	return false
+}
+
+func (t *T) intText() string {
+	if t.Uns {
+		return strconv.FormatUint(t.U, 10)
+	}
+	return strconv.FormatInt(t.I, 10)
+}
+
+// uT is an unsigned integer leaf: above MaxInt64 it can only be a uint/uint64.
+func uT(u uint64) *T {
+	if u > math.MaxInt64 {
+		return &T{K: KInt, U: u, Uns: true}
+	}
+	return &T{K: KInt, I: int64(u)}
 }
 
 func (t *T) size() int {
@@ -122,7 +141,7 @@ func (t *T) write(sb *strings.Builder) {
 			sb.WriteByte('f')
 		}
 	case KInt:
-		fmt.Fprintf(sb, "I(%d)", t.I)
+		fmt.Fprintf(sb, "I(%s)", t.intText())
 	case KFlt:
 		txt, ok := fltText(t.F)
 		if !ok {
@@ -172,7 +191,11 @@ func fromNode(n *lib.Node) (*T, error) {
 	case 'I':
 		i, err := strconv.ParseInt(n.Text, 10, 64)
 		if err != nil {
-			return nil, err
+			u, err2 := strconv.ParseUint(n.Text, 10, 64)
+			if err2 != nil {
+				return nil, err
+			}
+			return uT(u), nil
 		}
 		return &T{K: KInt, I: i}, nil
 	case 'F':
@@ -245,6 +268,12 @@ func (t *T) toSimple(w *lib.Rng) any {
 	case KBool:
 		return t.B
 	case KInt:
+		if t.Uns {
+			if w != nil && w.Bool() {
+				return uint(t.U)
+			}
+			return t.U
+		}
 		if w == nil {
 			return t.I
 		}
@@ -326,6 +355,9 @@ func (t *T) toGen() gen.Node {
 	case KBool:
 		return gen.Bool(t.B)
 	case KInt:
+		if t.Uns {
+			panic("toGen: unsigned value above MaxInt64")
+		}
 		return gen.Int(t.I)
 	case KFlt:
 		return gen.Float(t.F)
